@@ -213,3 +213,10 @@ impl Builder {
         self.0.build(outputs)
     }
 }
+
+/// C07: the crate-private `prettify_meta` of `lib.rs` (renders the source lines around a
+/// location and underlines it), exposed unchanged so that its index arithmetic can be
+/// compared with the Coq model `Front/Prettify.v`.
+pub fn prettify_meta(prg: &str, meta: crate::token::MetaInfo) -> String {
+    crate::prettify_meta(prg, meta)
+}
